@@ -117,6 +117,57 @@ def run_recipe(C, drv, rc):
             kids = [mk(c_) for c_ in s_[1:]]
             return L['Node'](name='ABS' if s_[0] == 'U' else 'SUM', type='FUNCTION', left=kids[0], right=kids[1] if len(kids) > 1 else None)
         check_part(C, mk(_tup(rc['shape'])), 'childlinks', dict(rc, at=0))
+    elif rc['kind'] == 'topdown':
+        # a tree assembled top-down, the root measured after every step; `parent.<side> = child` is done before
+        # `child.parent = parent` (order 'child-first') or after it
+        def mkleaf():
+            return L['Node'](name=0, type='TERMINAL', value=np.array([[0.5]]))
+        def mkfun(shape):
+            return L['Node'](name='ABS' if shape[0] == 'U' else 'SUM', type='FUNCTION')
+        shape = _tup(rc['shape'])
+        if shape == 'L':
+            return
+        root = mkfun(shape)
+        todo = [(root, shape)]
+        step = 0
+        while todo:
+            par, sh = todo.pop(0)
+            for k_, sub in enumerate(sh[1:]):
+                ch = mkleaf() if sub == 'L' else mkfun(sub)
+                if rc['order'] == 'child-first':
+                    if k_ == 0:
+                        par.left = ch
+                    else:
+                        par.right = ch
+                        ch.flag = False
+                    _ = (root.n_nodes, root.max_depth) if rc.get('measure_between') else None
+                    ch.parent = par
+                else:
+                    ch.parent = par
+                    if k_ == 0:
+                        par.left = ch
+                    else:
+                        par.right = ch
+                        ch.flag = False
+                step += 1
+                check_part(C, root, 'topdown', dict(rc, at=step))
+                if sub != 'L':
+                    todo.append((ch, sub))
+        check_tree(C, drv, root, 'topdown-finished', recipe=rc)
+    elif rc['kind'] == 'childlinks-edit':
+        def mk(s_):
+            if s_ == 'L':
+                return L['Node'](name=0, type='TERMINAL', value=np.array([[0.5]]))
+            kids = [mk(c_) for c_ in s_[1:]]
+            return L['Node'](name='ABS' if s_[0] == 'U' else 'SUM', type='FUNCTION', left=kids[0], right=kids[1] if len(kids) > 1 else None)
+        root = mk(_tup(rc['shape']))
+        check_part(C, root, 'childlinks', dict(rc, at=0))
+        # replace a grandchild (no parent links anywhere), measure again
+        inner = [n for n in T.walk(root)[0] if n is not root and n.type == 'FUNCTION']
+        if inner:
+            d_ = inner[rc['pick'] % len(inner)]
+            d_.left = mk(_tup(rc['branch']))
+            check_part(C, root, 'childlinks', dict(rc, at=1))
     elif rc['kind'] == 'link-order':
         side = rc['side']
         p_ = L['Node'](name='SUM', type='FUNCTION')
@@ -206,6 +257,24 @@ def check_part(C, root, tag, recipe):
         C.issue('pre-order-wrong', 'oracle', rp, real=real_pre, part=tag)
     if real_post != [idx[id(x)] for x in T.ref_post(root)]:
         C.issue('post-order-wrong', 'oracle', rp, real=real_post, part=tag)
+    if tag == 'subtree':
+        # the enclosing tree was built (and fully linked) by the harness: the stored links are the structure.  The slot
+        # of a terminal is where it hangs; the slot of a function is where its parent hangs — also when that parent is
+        # the node the method was called on (its slot lies in the enclosing tree)
+        for p in range(1, len(nodes)):
+            nd = nodes[p] if [id(x) for x in T.ref_pre(root)] == [id(x) for x in nodes] else T.ref_pre(root)[p]
+            if nd.type == 'TERMINAL':
+                want = (nd.parent, nd.flag)
+            else:
+                par = nd.parent
+                want = (par.parent, par.flag) if par.parent is not None else (None, False)
+            try:
+                got = root.find_node(p)
+            except Exception as ex:
+                got = (type(ex).__name__, None)
+            if not (got[0] is want[0] and bool(got[1]) == bool(want[1])):
+                C.issue('find-node-wrong', 'oracle', dict(rp, p=p), real=str(got[1]), reference=str(want[1]), part=tag,
+                        same_owner=got[0] is want[0])
     for p in (len(nodes), len(nodes) + 1, len(nodes) + 5):
         try:
             a, b = root.find_node(p)
@@ -251,6 +320,10 @@ def check(ctx):
             if s_ != 'L':
                 run_recipe(C, drv, dict(kind='subtree', shape=s_, measured_first=bool(T.shape_size(s_) % 2)))
                 run_recipe(C, drv, dict(kind='childlinks', shape=s_))
+        for s_ in [x for x in T.shapes_upto(3) if T.shape_size(x) >= 3][:: (7 if ctx['tier'] == 'quick' else 1)]:
+            for order in ('child-first', 'parent-first'):
+                run_recipe(C, drv, dict(kind='topdown', shape=s_, order=order, measure_between=bool(T.shape_size(s_) % 2)))
+            run_recipe(C, drv, dict(kind='childlinks-edit', shape=s_, pick=C.rng.randrange(1 << 10), branch=C.rng.choice(T.shapes_upto(2))))
         # every order of the three linking steps of a right (and left) child
         for side in (False, True):
             for order in _it.permutations(['flag', 'parent', 'attach']):
